@@ -259,6 +259,8 @@ def replay_file(doc):
             for e in doc["trace"]:
                 a = {k: v for k, v in e.items() if k not in ("res", "exc")}
                 status, val = w.do(a) if a["a"] != "Probe" else w.workers[a["t"]].call(("Probe",))
+                if isinstance(val, dict):
+                    val.pop("__current__", None)
                 if status == "exc":
                     a["exc"] = val
                 elif a["a"] == "Probe":
